@@ -19,12 +19,8 @@ pub(super) fn write_data(dst: &mut Vec<u8>, data: DataRef<'_>) -> io::Result<()>
 }
 
 fn write_field_encoded_data(dst: &mut Vec<u8>, src: &[u8]) -> io::Result<()> {
-    if is_valid(src)? {
-        dst.extend(src);
-        Ok(())
-    } else {
-        Err(io::Error::from(io::ErrorKind::InvalidInput))
-    }
+    let mut buf = src;
+    write_fields(dst, &mut buf)
 }
 
 fn write_generic_data<'r, D>(dst: &mut Vec<u8>, data: D) -> io::Result<()>
@@ -44,15 +40,11 @@ where
     Ok(())
 }
 
-fn is_valid(src: &[u8]) -> io::Result<bool> {
-    let mut buf = src;
-    validate(&mut buf)?;
-    Ok(true)
-}
-
-fn validate(src: &mut &[u8]) -> io::Result<()> {
+fn write_fields(dst: &mut Vec<u8>, src: &mut &[u8]) -> io::Result<()> {
     while !src.is_empty() {
-        split_off_first_chunk::<2>(src).ok_or_else(unexpected_eof)?;
+        let field = *src;
+
+        let tag = split_off_first_chunk::<2>(src).ok_or_else(unexpected_eof)?;
         let ty = src.split_off_first().ok_or_else(unexpected_eof)?;
 
         match *ty {
@@ -125,6 +117,13 @@ fn validate(src: &mut &[u8]) -> io::Result<()> {
             }
             _ => return Err(io::Error::new(io::ErrorKind::InvalidInput, "invalid type")),
         }
+
+        // The record encoder appends `CG` itself when the CIGAR op count overflows.
+        if tag == Tag::CIGAR.as_ref() {
+            continue;
+        }
+
+        dst.extend(&field[..field.len() - src.len()]);
     }
 
     Ok(())
